@@ -27,6 +27,11 @@ def obligations(tier):
         Ob("C12.declared", "X", "the lazy image variable advertises an np.dtype instance equal (up to byte order) to what a load produces, of kind u/c, and the header shape",
            ["ceos_alos2.xarray:LazilyIndexedWrapper.__init__", "ceos_alos2.array:Array.__post_init__", "ceos_alos2.array:parse_data", "ceos_alos2.sar_image.metadata:dtypes"],
            bounds="forall lines, pixels, records_per_chunk >= 1 (unbounded); both type codes", harness="harness/h_types.py", func="declared_ok", timeout=to),
+        Ob("C12.adapter", "X", "what a load returns is exactly what the backend array returned for the key xarray's adapter produced (no re-wrapping that could change rank, "
+           "shape or dtype): advertised shape = loaded shape for every selection the adapter can produce",
+           ["ceos_alos2.xarray:LazilyIndexedWrapper.__getitem__", "ceos_alos2.xarray:LazilyIndexedWrapper._raw_indexing_method"],
+           bounds="forall shapes; symbolic key token; counterexamples confirmed through DataArray.isel on synthesised products (17 selection kinds incl. 0-d)",
+           harness="harness/h_tree.py", func="adapter_ok", timeout=300),
         Ob("C12.empty", "X", "an empty row selection is a real ndarray of the advertised dtype (not a structured dtype) with shape (0, columns)",
            ["ceos_alos2.array:Array.__getitem__", "ceos_alos2.array:parse_data"], bounds="forall 0 <= stop <= start <= 3, rpc 1..4, both type codes",
            harness="harness/h_types.py", func="empty_ok", timeout=to),
